@@ -1,6 +1,6 @@
 (* C04 — one-shot runs terminate: no lost wake-up, no deadlock, whatever the graph.
    Property theorems only; proofs are in Proofs/SysWitness.v, Proofs/SysRoot.v (and Proofs/SysLive*.v). *)
-From Zinoma.Proofs Require Import SysWitness.
+From Zinoma.Proofs Require Import SysWitness SysLive4.
 
 (* The pinned handlers (before the FX1 repair, fx1 = false) lose a wake-up: `svc` service, `usesvc` build depending on it,
    `zinoma usesvc svc`. The schedule ends in a state where nothing can happen any more, no script failed, and the root is
@@ -22,3 +22,19 @@ Theorem C04_normal_exit_means_all_ready :
   forall (fx w : bool) (g : graph) (roots : list tid) (s : sys),
     reachable fx w g roots s -> r_unavB s = ∅ -> r_unavS s = ∅ -> forall r k, r ∈ roots -> ready g (hist s) k r.
 Proof. intros fx w g roots s. exact (root_idle_all_ready fx g roots w s). Qed.
+
+(* THE LIVENESS HALF, for every graph: with the repaired handlers (fx1 = true), for every closed acyclic target graph
+   (every dependency is a target of the graph; a rank function decreases along dependencies — both are guaranteed by
+   C09 for every resolver output), every requested set within the graph and every interleaving of message delivery and
+   script completion: a reachable state of a one-shot run in which nothing can happen any more (every inbox and the
+   root queue drained, no script in progress — "every script terminates" is the enabledness of its completion) and in
+   which no script has failed is never a state in which the root loop is still waiting. zinoma never remains idle
+   waiting for an acknowledgement that will not come: no lost wake-up, no deadlock, whatever the depth, width or shape. *)
+Theorem C04_no_lost_wakeup :
+  forall (g : graph) (roots : list tid) (rank : tid -> nat),
+    (forall t k deps d, g !! t = Some (k, deps) -> d ∈ deps -> is_Some (g !! d)) ->
+    (forall r, r ∈ roots -> is_Some (g !! r)) ->
+    (forall t k deps d, g !! t = Some (k, deps) -> d ∈ deps -> rank d < rank t) ->
+    forall s, reachable true false g roots s -> quiescent true false s = true -> (forall t, ObFail t ∉ hist s) ->
+    ph s <> PRun.
+Proof. exact no_lost_wakeup. Qed.
